@@ -83,6 +83,9 @@ pub enum Class {
     LocalTupleOfBoxes,
     MatchTailDropped,
     BoxInCondition,
+    // ---- known findings of the other clause: a handle released twice / used after release
+    AliasOfBox,
+    ReturnedLetBoundBox,
 }
 
 pub const STABLE: [Class; 33] = [
@@ -120,6 +123,10 @@ pub const STABLE: [Class; 33] = [
     Class::BlockYieldsOtherBox,
     Class::ShadowedBox,
 ];
+/// Constructs that release a heap object twice (logged `invalid HeapIdx`) or use it after release
+/// (`BoxLoad: invalid heap index`) on the pinned tree. One scenario in twelve contains exactly one
+/// of them and nothing else, so that these findings cannot hide another use-after-release.
+pub const UAF: [Class; 2] = [Class::AliasOfBox, Class::ReturnedLetBoundBox];
 pub const LEAKY: [Class; 28] = [
     Class::LocalCaptureBound,
     Class::ReturnedBound,
@@ -195,6 +202,8 @@ impl Class {
             Class::LocalTupleOfBoxes => "tuple-of-boxes-destructured-in-dsp",
             Class::MatchTailDropped => "match-binding-a-boxed-tail-that-is-dropped",
             Class::BoxInCondition => "boxed-temporary-consumed-in-an-if-condition",
+            Class::AliasOfBox => "alias-of-a-let-bound-box",
+            Class::ReturnedLetBoundBox => "helper-returning-its-let-bound-box",
             Class::FactoryCallbackScheduledByLetrecTask => "factory-made-callback-scheduled-by-a-letrec-task",
             Class::MatchBoxPayload => "match-projecting-a-boxed-payload-of-a-global-tree",
             Class::AssignGlobalClosure => "closure-assigned-to-a-global-from-dsp",
@@ -387,6 +396,22 @@ impl Inst {
             Class::InplaceCallsGlobalClosure => (
                 format!("fn mk{i}(q){{\n  |x| x * q\n}}\nlet g{i} = mk{i}({k})\n"),
                 format!("  let r{i} = (|y| g{i}(y) + 1.0)(now);\n"),
+                format!("r{i}"),
+            ),
+            Class::AliasOfBox => (
+                format!("type rec Xl{i} = Xn{i} | Xc{i}(float, Xl{i})\n"),
+                format!("  let xa{i} = Xc{i}(now, Xn{i});\n  let xb{i} = xa{i};\n  let r{i} = now + {k};\n"),
+                format!("r{i}"),
+            ),
+            Class::ReturnedLetBoundBox => (
+                format!(
+                    "type rec Yl{i} = Yn{i} | Yc{i}(float, Yl{i})\nfn ymk{i}(q){{\n  let a = Yc{i}(q + {k}, Yn{i})\n  a\n}}\nfn ysum{i}(l:Yl{i}) -> float {{\n  match l {{ Yn{i} => 0.0, Yc{i}(h, t) => h + ysum{i}(t) }}\n}}\n"
+                ),
+                if n % 2 == 0 {
+                    format!("  let yl{i} = ymk{i}(now);\n  let r{i} = now;\n")
+                } else {
+                    format!("  let yl{i} = ymk{i}(now);\n  let r{i} = ysum{i}(yl{i});\n")
+                },
                 format!("r{i}"),
             ),
             Class::ShadowedBox => (
@@ -810,6 +835,11 @@ pub fn run(sc: &C12Scenario) -> RunResult {
         self_tasks,
         calls_since_restart: 0,
     };
+    for i in &sc.insts {
+        if UAF.contains(&i.class) {
+            res.features.push(format!("uaf-class:{}", i.class.name()));
+        }
+    }
     let (_, _, inv0) = crate::util::log_counts();
     let total = 3 * sc.n;
     let mut out = vec![];
@@ -980,6 +1010,17 @@ pub fn gen_c12(seed: u64) -> C12Scenario {
             n,
             swaps: vec![],
             fixture: Some((p.to_string(), l.to_string(), rate)),
+        };
+    }
+    if root.sub("uaf").chance(1, 12) {
+        let mut r_u = root.sub("uaf-workload");
+        return C12Scenario {
+            prop: "C12".into(),
+            seed,
+            insts: vec![Inst { class: *r_u.pick(&UAF), id: 0, k: (r_u.range(1, 12) as f64) * 0.5, n: r_u.range(1, 7) }],
+            n,
+            swaps: vec![],
+            fixture: None,
         };
     }
     // swarm: only stable classes (any growth is new), only leaky, or mixed
